@@ -68,7 +68,8 @@ Definition res_eqb (a b : res) : bool :=
    CreatePartitions / commits put into or remove from etcd (delete prefixes included)
    is compared, not only what the key-builder functions return. *)
 Record case17 := mkCase17 {
-  k_brokers : Z; k_ops : list op; k_im : list res; k_et : list res; k_keys : list (list bytes) }.
+  k_brokers : Z; k_ops : list op; k_im : list res; k_et : list res;
+  k_keys : list (option (list bytes)) }.   (* None: same key set as after the previous operation *)
 
 Definition et_keys (s : etcd) : list bytes :=
   map fst (et_noff s) ++ map fst (et_cfg s) ++ map fst (et_pstate s) ++ map fst (et_groups s) ++ map fst (et_coff s).
@@ -79,10 +80,17 @@ Fixpoint et_run_keys (s : etcd) (ops : list op) : list (list bytes) :=
   | o :: ops' => let s' := fst (et_step s o) in et_keys s' :: et_run_keys s' ops'
   end.
 
+Fixpoint expand_keys (prev : list bytes) (l : list (option (list bytes))) : list (list bytes) :=
+  match l with
+  | [] => []
+  | Some ks :: l' => ks :: expand_keys ks l'
+  | None :: l' => prev :: expand_keys prev l'
+  end.
+
 Definition check_case17 (k : case17) : bool :=
   list_eqb res_eqb (snd (im_run (im_new (k_brokers k)) (k_ops k))) (k_im k) &&
   list_eqb res_eqb (snd (et_run (et_new (k_brokers k)) (k_ops k))) (k_et k) &&
-  list_eqb (perm_eqb bytes_eqb) (et_run_keys (et_new (k_brokers k)) (k_ops k)) (k_keys k).
+  list_eqb (perm_eqb bytes_eqb) (et_run_keys (et_new (k_brokers k)) (k_ops k)) (expand_keys [] (k_keys k)).
 
 (* ---------- C16: commits and OffsetFetch through the coordinator ---------- *)
 Inductive kstep :=
